@@ -1077,4 +1077,27 @@ void body()
 }
 }
 
+#ifdef VF_FUZZ
+// one history per libFuzzer input; the first byte selects plain or fault-injection histories
+void vf_fuzz_one()
+{
+  if (vf::fuzz_src().take(1) % 3 != 0)
+  {
+    static runner r;
+    std::string const e = "tree-history";
+    vf::set_entry(e);
+    if (vf::begin_case("fuzz:"))
+      r.run(0, e);
+  }
+  else
+  {
+    static fault_runner r;
+    std::string const e = "tree-fault-history";
+    vf::set_entry(e);
+    if (vf::begin_case("fuzz fault:"))
+      r.run(0, e);
+  }
+}
+#endif
+
 VF_MAIN(body)
